@@ -143,6 +143,8 @@ class SnapshotActionContext(FrameCollectorContext, ActionContext):
 
         snapshot.complete()
         if self._is_deferred():
+            # we are kept until the line or the function has completed: not so the values we have walked
+            self.var_cache = self.var_cache.continued()
             self.trigger_context.attach_result(DeferredSnapshotActionResult(self, snapshot))
         else:
             self.trigger_context.attach_result(SendSnapshotActionResult(self, snapshot))
